@@ -46,7 +46,7 @@ func isHandledSelectStmt(l *lexer, keyspace Identifier) (handled bool, stmt Stat
 		return false, nil, err
 	}
 
-	selectStmt := &SelectStatement{Keyspace: "system", Table: table.id}
+	selectStmt := &SelectStatement{Keyspace: "system", Table: table.ID()}
 
 	// This only parses the selectors if this is a query handled by the proxy
 
@@ -89,7 +89,7 @@ func isHandledUseStmt(l *lexer) (handled bool, stmt Statement, err error) {
 func parseSelector(l *lexer, t token) (selector Selector, next token, err error) {
 	switch t {
 	case tkIdentifier:
-		name := l.identifierStr()
+		name := l.identifier().ID()
 		l.mark()
 		if tkLparen == l.next() {
 			var args []string
@@ -97,7 +97,7 @@ func parseSelector(l *lexer, t token) (selector Selector, next token, err error)
 				if tkStar == t {
 					args = append(args, "*")
 				} else if tkIdentifier == t {
-					args = append(args, l.identifierStr())
+					args = append(args, l.identifier().ID())
 				} else {
 					return nil, tkInvalid, fmt.Errorf("unexpected argument type for function call '%s(...)' in select statement", name)
 				}
@@ -109,12 +109,12 @@ func parseSelector(l *lexer, t token) (selector Selector, next token, err error)
 				if len(args) == 0 {
 					return nil, tkInvalid, fmt.Errorf("expected * or identifier in argument 'COUNT(...)' in select statement")
 				}
-				return &CountFuncSelector{Arg: args[0]}, l.next(), nil
+				selector = &CountFuncSelector{Arg: args[0]}
 			} else if strings.EqualFold(name, "now") {
 				if len(args) != 0 {
 					return nil, tkInvalid, fmt.Errorf("unexpected argument for 'NOW()' function call in select statement")
 				}
-				return &NowFuncSelector{}, l.next(), nil
+				selector = &NowFuncSelector{}
 			} else {
 				return nil, tkInvalid, fmt.Errorf("unsupported function call '%s' in select statement", name)
 			}
@@ -132,7 +132,7 @@ func parseSelector(l *lexer, t token) (selector Selector, next token, err error)
 		if tkIdentifier != l.next() {
 			return nil, tkInvalid, errors.New("expected identifier after 'AS' in select statement")
 		}
-		return &AliasSelector{Selector: selector, Alias: l.identifierStr()}, l.next(), nil
+		return &AliasSelector{Selector: selector, Alias: l.identifier().ID()}, l.next(), nil
 	}
 
 	return selector, t, nil
